@@ -67,7 +67,7 @@ Ltac ce_l_tac :=
   intros E; csimpl;
   first [ left; exact E
         | discriminate E
-        | exfalso; unfold ctx_status in E;
+        | exfalso; unfold closed_err, ctx_status in E;
           repeat match type of E with
                  | context [if ?b then _ else _] => destruct b
                  | context [match k_ctx ?k with _ => _ end] => destruct (k_ctx k)
